@@ -24,9 +24,15 @@
 //!
 //! Attribution (`check_case`): a failing case is renamed to a finding's signature only if it
 //! *passes* once that finding's shape is removed while the tree stays the same — surrogate
-//! pair escapes written raw, line breaks after bare JSON scalars reduced to one, `reverse` /
-//! `tonumber` guarded by a type test — or, for the tab finding, if the JSON route reports
+//! pair escapes written raw, line breaks after bare JSON scalars reduced to one — or, for the
+//! tab finding, if the JSON route reports
 //! "tab character used for indentation" and the text has a tab outside its root value.
+//!
+//! Not part of the presentation-agnostic fragment (see `gen::yqprog::guard_text_reading_builtins`):
+//! `length` of a number, `reverse` of a boolean / null / number and `tonumber` of a boolean /
+//! null read the scalar's *source spelling* in yq semantics (`+28 | length` is 3, `28 | length`
+//! is 2; `True | reverse` is "eurT"), and G-yaml spells the same value in several ways
+//! (`+28`, `True`, `~`). The generator applies these builtins to the other types only.
 //!
 //! Structured replays: `{"input": {"json", "block_yaml", "flow_yaml", "program"}}` (texts, or
 //! `*_hex`). Development aid: `VH_C26_SURVEY=<file>` logs every failure and keeps searching.
@@ -308,23 +314,6 @@ fn surrogate_pairs_to_raw(json: &mut Vec<u8>) -> bool {
     found
 }
 
-/// Open findings about builtins that operate on the source spelling of a boolean / null /
-/// number instead of its value: (signature, builtin, guarded replacement, reason).
-const PROGRAM_GUARDS: &[(&str, &str, &str, &str)] = &[
-    (
-        "C26/scalar-source-text-leak/reverse",
-        "reverse",
-        "(if (type == \"string\" or type == \"array\") then reverse else . end)",
-        "the same case passes when `reverse` is applied to strings and arrays only",
-    ),
-    (
-        "C26/scalar-source-text-leak/tonumber-error-text",
-        "tonumber",
-        "(if (type == \"string\" or type == \"number\") then tonumber else . end)",
-        "the same case passes when `tonumber` is applied to strings and numbers only",
-    ),
-];
-
 /// The oracle plus attribution to the open JSON-input findings: the shapes are removed from
 /// the JSON rendering one after the other (each rewrite keeps the JSON value); a failing
 /// case that passes as soon as a shape is gone is that finding, whatever the symptom.
@@ -351,22 +340,6 @@ pub fn check_case(c: &Case, st: &mut Stats) -> Result<Outcome, Fail> {
                         m.insert("attributed_because".into(), json!(why));
                     }
                     return Err(Fail::new(sig, d));
-                }
-            }
-        }
-    }
-    // builtins that read a non-string scalar's *source text*: guard them with a type test
-    for (sig, needle, guarded, why) in PROGRAM_GUARDS {
-        if fixed.program.contains(needle) {
-            fixed.program = fixed.program.replace(needle, guarded);
-            if let Ok(o) = check_inner(&fixed, st) {
-                if o != Outcome::Discarded {
-                    let mut d = f.detail.clone();
-                    if let Some(m) = d.as_object_mut() {
-                        m.insert("symptom".into(), json!(f.sig));
-                        m.insert("attributed_because".into(), json!(why));
-                    }
-                    return Err(Fail::new(*sig, d));
                 }
             }
         }
@@ -497,8 +470,6 @@ struct Avoid {
     blank_line: bool,
     /// a surrogate pair escape in a JSON string
     surrogates: bool,
-    /// per entry of PROGRAM_GUARDS: write the builtin guarded by a type test
-    guards: [bool; 2],
 }
 
 struct Generated {
@@ -535,13 +506,7 @@ fn gen_case(u: &mut Src, av: Avoid) -> Generated {
     let block = gy::render(&stream, u, &bo).text;
     let flow = gy::render(&stream, u, &fo).text;
     let explicit_format = u.bool();
-    let mut program = prog.text.clone();
-    for (i, (_, needle, guarded, _)) in PROGRAM_GUARDS.iter().enumerate() {
-        if av.guards[i] {
-            program = program.replace(needle, guarded);
-        }
-    }
-    Generated { case: Case { json, block, flow, program, explicit_format }, tree, prog }
+    Generated { case: Case { json, block, flow, program: prog.text.clone(), explicit_format }, tree, prog }
 }
 
 fn classify(g: &Generated, st: &mut Stats) {
@@ -653,9 +618,9 @@ pub fn run(cx: &mut Ctx) {
             cx.replay_outcome(&name, r);
         }
     }
-    let av = Avoid { outer_tab: cx.is_known(SIG_JSON_OUTER_TAB), blank_line: cx.is_known(SIG_JSON_BLANK_LINE), surrogates: cx.is_known(SIG_JSON_SURROGATES), guards: [cx.is_known(PROGRAM_GUARDS[0].0), cx.is_known(PROGRAM_GUARDS[1].0)] };
-    if av.outer_tab || av.blank_line || av.surrogates || av.guards.iter().any(|g| *g) {
-        cx.note("open findings: `three-syntaxes` does not generate the JSON shapes of the findings listed as known (tab in the white space around the root value / blank line after a bare scalar / surrogate pair escapes) and writes `reverse` / `tonumber` behind a type test while their findings are open; `open-finding-shapes` generates all of them");
+    let av = Avoid { outer_tab: cx.is_known(SIG_JSON_OUTER_TAB), blank_line: cx.is_known(SIG_JSON_BLANK_LINE), surrogates: cx.is_known(SIG_JSON_SURROGATES) };
+    if av.outer_tab || av.blank_line || av.surrogates {
+        cx.note("open findings: `three-syntaxes` does not generate the JSON shapes of the findings listed as known (tab in the white space around the root value / blank line after a bare scalar / surrogate pair escapes); `open-finding-shapes` generates them");
     }
     cx.check("three-syntaxes", RULE, Budget { quick: 4_000, thorough: 200_000, max_len: 2500 }, |u, st| run_case(u, st, av));
     for cl in [
